@@ -50,7 +50,12 @@ def make_plan(seed: int, tier: str, index: int) -> dict[str, Any]:
     doc = gen.gen_doc(g, max_tracks=2, small=False if g.random() < 0.5 else True)
     doc["unknown"] = []
     want_tempos = g.choice([3, 3, 4, 5, 6, 8, 10])
-    while len(doc["tempos"]) < want_tempos and g.random() < 0.9:
+    huge = index % 100 == 50
+    if huge:
+        # a chart tempo-mapped beat by beat: the lookup must not depend on how far the hint is
+        # from the governing event (deep recursion, quadratic scans, integer width ...)
+        want_tempos = g.choice([1100, 1600, 2600])
+    while len(doc["tempos"]) < want_tempos and (huge or g.random() < 0.9):
         last = doc["tempos"][-1][0]
         doc["tempos"].append([last + g.choice([1, 2, doc["resolution"], 3 * doc["resolution"] + 1]),
                               g.choice(gen.BPM_POOL)])
@@ -58,11 +63,13 @@ def make_plan(seed: int, tier: str, index: int) -> dict[str, Any]:
         ticks = [t for t, _ in doc["tempos"]]
         pool = sorted({0, -1, 1, ticks[-1] + 100000} | set(ticks) | {t - 1 for t in ticks}
                       | {t + 1 for t in ticks})
-        n_clients = p.choice([1, 2, 2, 3])
+        if huge:
+            pool = sorted(set(p.sample(pool, 40)) | {0, ticks[-1], ticks[-1] + 100000, ticks[len(ticks) // 2]})
+        n_clients = p.choice([1, 2, 2, 3]) if not huge else p.choice([1, 1, 2])
         clients = []
         for _ in range(n_clients):
             ops = []
-            for _ in range(p.randint(4, 20)):
+            for _ in range(p.randint(4, 20) if not huge else p.randint(4, 8)):
                 ops.append({"tick": p.choice(pool + [p.randint(-2, ticks[-1] + 50)]),
                             "hint": p.choice(["zero", "none", "prev", "prev", "prev", "any", "prev+1",
                                               "len-1", "len", "len+1", p.randrange(0, len(ticks) + 1)]),
